@@ -79,13 +79,16 @@ def sim_part(run, EoN, tier, stats):
         tmin = rng.choice([0, 2.5, -1])
         def call(GG, f):
             inv_f = {b: a for a, b in f.items()}
+            # a single index case is handed over as the bare node in every other such case: a label that is itself iterable (str, tuple)
+            # must still be taken as ONE node
+            i0arg = f[sel[0]] if (len(sel) == 1 and i % 2 == 0) else [f[u] for u in sel]
             if which == 'fast_nonMarkov_SIR':
                 return EoN.fast_nonMarkov_SIR(GG, trans_time_fxn=lambda u, v: float(dl[(inv_f[u], inv_f[v])]), rec_time_fxn=lambda u: float(du[inv_f[u]]),
-                                              initial_infecteds=[f[u] for u in sel], tmin=tmin, tmax=tmin + 20, return_full_data=True)
+                                              initial_infecteds=i0arg, tmin=tmin, tmax=tmin + 20, return_full_data=True)
             if which == 'fast_nonMarkov_SIS':
                 return EoN.fast_nonMarkov_SIS(GG, trans_time_fxn=lambda u, v, d: [float(dl[(inv_f[u], inv_f[v])])] if dl[(inv_f[u], inv_f[v])] <= d else [],
-                                              rec_time_fxn=lambda u: float(du[inv_f[u]]), initial_infecteds=[f[u] for u in sel], tmin=tmin, tmax=tmin + 6, return_full_data=True)
-            return EoN.discrete_SIR(GG, test_transmission=lambda u, v: succ[(inv_f[u], inv_f[v])], args=(), initial_infecteds=[f[u] for u in sel],
+                                              rec_time_fxn=lambda u: float(du[inv_f[u]]), initial_infecteds=i0arg, tmin=tmin, tmax=tmin + 6, return_full_data=True)
+            return EoN.discrete_SIR(GG, test_transmission=lambda u, v: succ[(inv_f[u], inv_f[v])], args=(), initial_infecteds=i0arg,
                                     tmin=tmin, tmax=tmin + 10, return_full_data=True)
         ident = {u: u for u in gc.order}
         try:
